@@ -17,13 +17,13 @@ RULE = ("1-8 recording systems (mixed priorities/windows); completion point = (s
         "removal, rejected n, complete() again}; non-trivial = completion from outside, or from a system that is "
         "neither first nor last with >=1 due system behind it, followed by >=3 further requests; distinct = "
         "(queue length, completer position, due systems behind, inside multi-step?, tail op kinds)"
-        "; also: completion before the first step, a completer that raises right after complete(), systems bound to another (running) model, falsy systems, ambient logging state (custom logger without a level, raised level, logging.disable)")
+        "; also: completion before the first step, a completer that raises right after complete(), systems bound to another (running) model, falsy systems, ambient logging state (custom logger without a level, raised level, logging.disable), completion by a member of a private SystemManager of the same model")
 COMPONENTS = {"real": ["ECAgent.Core.Model.complete/is_running/__bool__/execute", "ECAgent.Core.SystemManager.execute_systems",
                        "add_system/remove_system after completion"],
               "stub": ["System.execute bodies are harness recorders; the completer calls model.complete() when scripted"]}
 PROBES = ["completer_first", "completer_middle", "completer_last", "complete_outside", "complete_at_t0",
           "multi_step_spans_completion", "throw_error_raised", "add_after_complete", "remove_after_complete",
-          "due_system_skipped", "completer_raises_after_complete", "system_bound_to_another_model", "falsy_systems",
+          "due_system_skipped", "completer_raises_after_complete", "completed_by_member_of_a_private_system_manager", "system_bound_to_another_model", "falsy_systems", "systems_returning_values_from_execute",
           "logging_custom_logger", "logging_level_warning", "logging_disable_info", "logging_disable_critical", "logging_level_debug"]
 TECHNIQUE = "deterministic simulation: complete() injected as a cancellation at every schedule point, then a seeded request tail with a 'nothing moves' oracle"
 LEVEL_TEXT = ("Seeded search over the completion point (queue position x timestep, inside multi-step requests, from outside) "
@@ -81,6 +81,11 @@ def generate(rng, tier):
             tail.append({"op": "complete"})
         else:
             tail.append({"op": "remove_ghost"})
+    if comp["by"] is not None and rng.random() < 0.12:
+        # the completing system is a "group": it owns a SystemManager of its own for the same model and steps its members; one
+        # of THEM completes the model - the rest of the group, and the rest of the timestep, must be skipped all the same
+        nm = rng.randint(2, 4)
+        comp["group"] = {"members": nm, "completer": rng.randrange(nm)}
     if comp["by"] is not None and rng.random() < 0.2:
         comp["then_raise"] = rng.choice(["OSError", "ValueError", "RuntimeError", "KeyError"])
     # ambient logging state: the statement's reactions must not depend on whether anybody listens to the model's logger
@@ -107,13 +112,44 @@ class World:
         self.ctx.event("exec", s.id, t)
         if self.completed_at_seq is None and self.comp["by"] == s.id and t >= self.comp["t"]:
             self.ctx.fault("cancel.complete")
-            self.model.complete()
+            g = self.comp.get("group")
+            if g:
+                self.run_group(g, t)
+            else:
+                self.model.complete()
             self.completed_at_seq = len(self.log)
             self.ctx.event("complete-inside", s.id, t)
             if self.comp.get("then_raise"):
                 # the system completes the model and then fails (e.g. while writing its final report)
                 self.ctx.probe("completer_raises_after_complete")
                 raise EXC[self.comp["then_raise"]]("failure after complete()")
+
+
+def _run_group(self, g, t):
+    """The completing system steps a private SystemManager(model); member `completer` completes the model."""
+    from ECAgent.Core import System, SystemManager
+    world, glog = self, []
+    nm, who = max(1, int(g["members"])), int(g["completer"]) % max(1, int(g["members"]))
+
+    class Member(System):
+        def execute(self_):
+            glog.append(self_.id)
+            if self_.id == f"g{who}":
+                world.model.complete()
+
+    sm2 = SystemManager(self.model)
+    for j in range(nm):
+        sm2.add_system(Member(f"g{j}", self.model, priority=-j))
+    self.ctx.probe("completed_by_member_of_a_private_system_manager")
+    st, v = self.ctx.call(sm2.execute_systems)
+    if st != "ok":
+        self.ctx.fail("group-step:unexpected-exception", f"{type(v).__name__}: {v}")
+    self.ctx.check(glog == [f"g{j}" for j in range(who + 1)], "ran-after-complete",
+                   f"t={t}: a private SystemManager of the same model ran {glog}; its member g{who} completed the model, so "
+                   f"exactly g0..g{who} may have run")
+
+
+World.run_group = _run_group
 
 
 def execute(sc, ctx):
